@@ -193,14 +193,14 @@ def cases(tier, seed):
               "version_bounds", "overlap_refused", "rsa_in_non_last_v1_container", "max_layout", "cli_v2_single_table",
               "rsa_signature_provider", "encrypted_with_size_alignment"):
         yield {"kind": "witness", "what": w}
-    per = 25 if thorough else 4
+    per = 60 if thorough else 4
     for fam, rev, cv in info["combos"]:
         for mem in info["mems"]:
             for k in range(per):
                 yield {"kind": "build", "family": fam, "revision": rev, "cver": cv, "mem": mem, "k": k}
-    for j in range(100 if thorough else 16):
+    for j in range(250 if thorough else 16):
         yield {"kind": "cli", "j": j}
-    for j in range(60 if thorough else 8):
+    for j in range(150 if thorough else 8):
         yield {"kind": "sweep", "j": j}
 
 
